@@ -227,3 +227,34 @@ def tag_group_indices(prog):
                 direct.append(v.v)
     key_groups = [x for x in direct[1:] if x != 0]
     return [x for x in out if x not in key_groups]
+
+
+def check_replacer_pushes(ctx, rep):
+    """whatever DisReplacer appends to the output is either text derived from the looked-up value / localisation, or the
+    whole match (capture group 0) verbatim: the text of an inner group or a literal is never pushed"""
+    prog = ctx.prog
+    body = next((b for b in prog.bodies.values() if b.short.endswith("as regex::Replacer>::replace_append")), None)
+    if body is None:
+        rep.gap("DisReplacer::replace_append", "-", "not found")
+        return 0
+    bodies = [body] + [prog.bodies[c] for c in prog.closures_of.get(body.id, [])]
+    n = 0
+    for x in bodies:
+        k = 0
+        for bi, t in x.calls():
+            nm = strip_generics(mir.callee_name(t) or "")
+            if nm not in ("std::string::String::push_str", "std::string::String::push", "std::string::String::insert_str", "std::string::String::extend"):
+                continue
+            n += 1
+            v = G.describe(x, t["args"][1])
+            r = repr(v)
+            key = "replacer-push:%s#%d" % (x.short.split("::")[-1], k)
+            k += 1
+            groups = [int(g) for g in re.findall(r"regex::Captures::get\([^,]*, const (\d+)\)", r)]
+            if v.kind in ("const", "conststr") or nm.endswith("::push"):
+                rep.bad("T-VERBATIM", "T-VERBATIM:replacer-push:literal", x.where(bi), "the replacer appends a literal (%s): an unresolved macro is rebuilt instead of being left verbatim" % r[:40])
+            elif groups and any(g != 0 for g in groups):
+                rep.bad("T-VERBATIM", "T-VERBATIM:replacer-push:inner-group", x.where(bi), "the replacer appends the text of capture group %s instead of the whole match: braces / angle brackets of an unresolved macro are lost" % [g for g in groups if g != 0])
+            elif groups == [0] or not groups:
+                rep.ok("T-VERBATIM", key, x.where(bi), "appends %s" % ("the whole match (group 0)" if groups else "text derived from the looked-up value"))
+    return n
